@@ -35,6 +35,7 @@ class Scenario:
     consume_tmo_ms: list = field(default_factory=lambda: [5, 1200, 2500])
     schedule: bool = False               # fake servers: seeded random order of pending round trips
     fifo_only: bool = False              # only undelayed, no ttl: pure ordering histories
+    exec_timeouts_s: list = field(default_factory=lambda: [None])    # execution timeouts offered to enqueue
     script: list | None = None           # directed history: the operations in this order instead of seeded choices
 
 
@@ -115,6 +116,9 @@ async def run_history(loop, sc: Scenario, make=None, projector=None, latency_us=
                 kw["delay"] = DelayProperties(delay_until=when)
         if ttl_ms is not None:
             kw["ttl"] = timedelta(milliseconds=ttl_ms)
+        et = rng.choice(sc.exec_timeouts_s)
+        if et is not None:
+            kw["execution_timeout"] = timedelta(seconds=et)
         return Parameters(timestamp=now, **kw)
 
     for n in range(len(sc.script) if sc.script else sc.nops):
@@ -140,6 +144,9 @@ async def run_history(loop, sc: Scenario, make=None, projector=None, latency_us=
                         continue  # message API refuses it; broker-level histories stay within C16
                     choices += [(o, ci, hi)] * w.get(o, 1)
         choices += ["sleep"] * w.get("sleep", 2)
+        if hasattr(broker, "maintenance"):
+            # another client of the same broker connects / disconnects: the broker's maintenance runs
+            choices += ["maint"] * w.get("maint", 0)
         for q in queues:
             choices += [("qflush", q)] * w.get("flush", 0)
             choices += [("qdeclare", q)] * w.get("declare", 0)
@@ -150,7 +157,7 @@ async def run_history(loop, sc: Scenario, make=None, projector=None, latency_us=
         if sc.script:
             ch = sc.script[n]
             ch = tuple(ch) if isinstance(ch, list) else ch
-            if ch != "enq" and ch[0] != "sleep" and ch not in choices:
+            if ch not in ("enq", "maint") and ch[0] != "sleep" and ch not in choices:
                 continue                   # (not applicable in the client's present state, e.g. after an interrupted call)
         stats["ops"] += 1
         if ch == "enq":
@@ -164,6 +171,10 @@ async def run_history(loop, sc: Scenario, make=None, projector=None, latency_us=
             payload = f'{{"n":{nid}}}'
             oplog.append(("enq", key.id_, topic, delay, ttl))
             await do(n, lambda: broker.enqueue(key, payload, params))
+        elif ch == "maint":
+            oplog.append(("maint",))
+            if hasattr(broker, "maintenance"):
+                await broker.maintenance()
         elif ch == "sleep" or ch[0] == "sleep":
             ms = rng.choice(sc.sleeps_ms) if ch == "sleep" else ch[1]
             oplog.append(("sleep", ms))
